@@ -570,3 +570,207 @@ Proof.
   - rewrite bind_ret. unfold pop_frame, modify. nstate. destruct frs as [[|f fs]|]; reflexivity.
   - unfold swap_sp. rewrite bind_modify. nstate. regs. unfold pop_frame, modify. nstate. destruct frs as [[|f fs]|]; reflexivity.
 Qed.
+
+(* ------------------------------------------------------------------ whole-step rules *)
+Lemma after_exec_ok K e m rs pc psr ssp fno frs ins obs mcr q buf :
+  after_exec e (mk K m rs pc psr ssp fno frs ins false obs mcr q buf, inl tt) =
+  (mk K m rs pc psr ssp fno frs (next_ins ins) false obs mcr q buf, OOk).
+Proof. reflexivity. Qed.
+
+Ltac step_by L :=
+  intros; erewrite step_in_fetch by eassumption; rewrite L by assumption; try apply after_exec_ok.
+
+Lemma step_BR K e m rs pc psr ssp fno frs ins pf obs mcr q buf w cc off :
+  0 <= pc < IO_START -> may_access K psr pc = true -> mget m pc = new_init w -> decode w = DOk (SBR cc off) ->
+  step_in e (mk K m rs pc psr ssp fno frs ins pf obs mcr q buf) =
+  (mk K m rs (if negb (Z.land cc (psr_cc psr) =? 0) then wrap16 (wrap16 (pc + 1) + off) else wrap16 (pc + 1))
+      psr ssp fno frs (next_ins ins) false [(pc, OBS_READ)] mcr q buf, OOk).
+Proof. step_by exec_BR. Qed.
+
+Lemma step_ADD K e m rs pc psr ssp fno frs ins pf obs mcr q buf w dr sr o :
+  0 <= pc < IO_START -> may_access K psr pc = true -> mget m pc = new_init w -> decode w = DOk (SADD dr sr o) ->
+  step_in e (mk K m rs pc psr ssp fno frs ins pf obs mcr q buf) =
+  (mk K m (rset rs dr (w_add (rget rs sr) (operand_of rs o))) (wrap16 (pc + 1))
+      (psr_set_cc psr (cc_of (w_data (w_add (rget rs sr) (operand_of rs o))))) ssp fno frs (next_ins ins) false [(pc, OBS_READ)] mcr q buf, OOk).
+Proof. step_by exec_ADD. Qed.
+
+Lemma step_AND K e m rs pc psr ssp fno frs ins pf obs mcr q buf w dr sr o :
+  0 <= pc < IO_START -> may_access K psr pc = true -> mget m pc = new_init w -> decode w = DOk (SAND dr sr o) ->
+  step_in e (mk K m rs pc psr ssp fno frs ins pf obs mcr q buf) =
+  (mk K m (rset rs dr (w_and (rget rs sr) (operand_of rs o))) (wrap16 (pc + 1))
+      (psr_set_cc psr (cc_of (w_data (w_and (rget rs sr) (operand_of rs o))))) ssp fno frs (next_ins ins) false [(pc, OBS_READ)] mcr q buf, OOk).
+Proof. step_by exec_AND. Qed.
+
+Lemma step_LEA K e m rs pc psr ssp fno frs ins pf obs mcr q buf w dr off :
+  0 <= pc < IO_START -> may_access K psr pc = true -> mget m pc = new_init w -> decode w = DOk (SLEA dr off) ->
+  step_in e (mk K m rs pc psr ssp fno frs ins pf obs mcr q buf) =
+  (mk K m (rset rs dr (new_init (wrap16 (wrap16 (pc + 1) + off)))) (wrap16 (pc + 1)) psr ssp fno frs (next_ins ins) false [(pc, OBS_READ)] mcr q buf, OOk).
+Proof. step_by exec_LEA. Qed.
+
+Lemma step_LD K e m rs pc psr ssp fno frs ins pf obs mcr q buf w dr off :
+  let ea := wrap16 (wrap16 (pc + 1) + off) in
+  0 <= pc < IO_START -> may_access K psr pc = true -> mget m pc = new_init w -> decode w = DOk (SLD dr off) ->
+  ea < IO_START -> may_access K psr ea = true ->
+  step_in e (mk K m rs pc psr ssp fno frs ins pf obs mcr q buf) =
+  (mk K m (rset rs dr (mget m ea)) (wrap16 (pc + 1)) (psr_set_cc psr (cc_of (w_data (mget m ea))))
+      ssp fno frs (next_ins ins) false (obs_update [(pc, OBS_READ)] ea OBS_READ) mcr q buf, OOk).
+Proof. step_by exec_LD. Qed.
+
+Lemma step_LDR K e m rs pc psr ssp fno frs ins pf obs mcr q buf w dr br off :
+  let ea := wrap16 (w_data (rget rs br) + off) in
+  0 <= pc < IO_START -> may_access K psr pc = true -> mget m pc = new_init w -> decode w = DOk (SLDR dr br off) ->
+  ea < IO_START -> may_access K psr ea = true ->
+  step_in e (mk K m rs pc psr ssp fno frs ins pf obs mcr q buf) =
+  (mk K m (rset rs dr (mget m ea)) (wrap16 (pc + 1)) (psr_set_cc psr (cc_of (w_data (mget m ea))))
+      ssp fno frs (next_ins ins) false (obs_update [(pc, OBS_READ)] ea OBS_READ) mcr q buf, OOk).
+Proof. step_by exec_LDR. Qed.
+
+Lemma step_STR K e m rs pc psr ssp fno frs ins pf obs mcr q buf w sr br off :
+  let ea := wrap16 (w_data (rget rs br) + off) in
+  0 <= pc < IO_START -> may_access K psr pc = true -> mget m pc = new_init w -> decode w = DOk (SSTR sr br off) ->
+  ea < IO_START -> may_access K psr ea = true ->
+  step_in e (mk K m rs pc psr ssp fno frs ins pf obs mcr q buf) =
+  (mk K (mset m ea (rget rs sr)) rs (wrap16 (pc + 1)) psr ssp fno frs (next_ins ins) false
+      (obs_write [(pc, OBS_READ)] m ea (rget rs sr)) mcr q buf, OOk).
+Proof. step_by exec_STR. Qed.
+
+Lemma step_LDI_kbsr K e m rs pc psr ssp fno frs ins pf obs mcr q buf w dr off :
+  let p := wrap16 (wrap16 (pc + 1) + off) in
+  0 <= pc < IO_START -> may_access K psr pc = true -> mget m pc = new_init w -> decode w = DOk (SLDI dr off) ->
+  p < IO_START -> psr_privileged psr = true -> mget m p = new_init KBSR ->
+  step_in e (mk K m rs pc psr ssp fno frs ins pf obs mcr q buf) =
+  (mk K (mset m KBSR (new_init (kbsr_val e q))) (rset rs dr (new_init (kbsr_val e q))) (wrap16 (pc + 1))
+      (psr_set_cc psr (cc_of (kbsr_val e q))) ssp fno frs (next_ins ins) false
+      (obs_update (obs_update [(pc, OBS_READ)] p OBS_READ) KBSR OBS_READ) mcr q buf, OOk).
+Proof. step_by exec_LDI_kbsr. Qed.
+
+Lemma step_LDI_dsr K e m rs pc psr ssp fno frs ins pf obs mcr q buf w dr off :
+  let p := wrap16 (wrap16 (pc + 1) + off) in
+  0 <= pc < IO_START -> may_access K psr pc = true -> mget m pc = new_init w -> decode w = DOk (SLDI dr off) ->
+  p < IO_START -> psr_privileged psr = true -> mget m p = new_init DSR ->
+  step_in e (mk K m rs pc psr ssp fno frs ins pf obs mcr q buf) =
+  (mk K (mset m DSR (new_init (dsr_val e))) (rset rs dr (new_init (dsr_val e))) (wrap16 (pc + 1))
+      (psr_set_cc psr (cc_of (dsr_val e))) ssp fno frs (next_ins ins) false
+      (obs_update (obs_update [(pc, OBS_READ)] p OBS_READ) DSR OBS_READ) mcr q buf, OOk).
+Proof. step_by exec_LDI_dsr. Qed.
+
+Lemma step_LDI_kbdr K e m rs pc psr ssp fno frs ins pf obs mcr q buf w dr off :
+  let p := wrap16 (wrap16 (pc + 1) + off) in
+  0 <= pc < IO_START -> may_access K psr pc = true -> mget m pc = new_init w -> decode w = DOk (SLDI dr off) ->
+  p < IO_START -> psr_privileged psr = true -> mget m p = new_init KBDR ->
+  step_in e (mk K m rs pc psr ssp fno frs ins pf obs mcr q buf) =
+  match (if e_kb_locked e then [] else q) with
+  | [] => (mk K m (rset rs dr (mget m KBDR)) (wrap16 (pc + 1)) (psr_set_cc psr (cc_of (w_data (mget m KBDR)))) ssp fno frs (next_ins ins) false
+              (obs_update (obs_update [(pc, OBS_READ)] p OBS_READ) KBDR OBS_READ) mcr q buf, OOk)
+  | ch :: r => (mk K (mset m KBDR (new_init ch)) (rset rs dr (new_init ch)) (wrap16 (pc + 1)) (psr_set_cc psr (cc_of ch)) ssp fno frs (next_ins ins) false
+              (obs_update (obs_update [(pc, OBS_READ)] p OBS_READ) KBDR OBS_READ) mcr r buf, OOk)
+  end.
+Proof. step_by exec_LDI_kbdr. destruct (if e_kb_locked e then [] else q); apply after_exec_ok. Qed.
+
+Lemma step_STI_ddr K e m rs pc psr ssp fno frs ins pf obs mcr q buf w sr off :
+  let p := wrap16 (wrap16 (pc + 1) + off) in
+  0 <= pc < IO_START -> may_access K psr pc = true -> mget m pc = new_init w -> decode w = DOk (SSTI sr off) ->
+  p < IO_START -> psr_privileged psr = true -> mget m p = new_init DDR ->
+  step_in e (mk K m rs pc psr ssp fno frs ins pf obs mcr q buf) =
+  if e_ds_locked e then (mk K m rs (wrap16 (pc + 1)) psr ssp fno frs (next_ins ins) false (obs_update [(pc, OBS_READ)] p OBS_READ) mcr q buf, OOk)
+  else (mk K (mset m DDR (rget rs sr)) rs (wrap16 (pc + 1)) psr ssp fno frs (next_ins ins) false
+           (obs_write (obs_update [(pc, OBS_READ)] p OBS_READ) m DDR (rget rs sr)) mcr q (buf ++ [w_data (rget rs sr) mod 256]), OOk).
+Proof. step_by exec_STI_ddr. destruct (e_ds_locked e); apply after_exec_ok. Qed.
+
+Lemma step_STI_mcr K e m rs pc psr ssp fno frs ins pf obs mcr q buf w sr off :
+  let p := wrap16 (wrap16 (pc + 1) + off) in
+  0 <= pc < IO_START -> may_access K psr pc = true -> mget m pc = new_init w -> decode w = DOk (SSTI sr off) ->
+  p < IO_START -> psr_privileged psr = true -> mget m p = new_init 65534 ->
+  step_in e (mk K m rs pc psr ssp fno frs ins pf obs mcr q buf) =
+  (mk K (mset m 65534 (rget rs sr)) rs (wrap16 (pc + 1)) psr ssp fno frs (next_ins ins) false
+      (obs_write (obs_update [(pc, OBS_READ)] p OBS_READ) m 65534 (rget rs sr)) (32768 <=? w_data (rget rs sr)) q buf, OOk).
+Proof. step_by exec_STI_mcr. Qed.
+
+Lemma step_TRAP K e m r0 r1 r2 r3 r4 r5 r6 r7 pc psr ssp fno frs ins pf obs mcr q buf w v :
+  let spw := if psr_privileged psr then r6 else ssp in
+  let sp := w_data spw in
+  let npc := wrap16 (pc + 1) in
+  let m' := mset (mset m (wrap16 (sp - 1)) (new_init psr)) (wrap16 (sp - 2)) (new_init npc) in
+  let rs' := [r0; r1; r2; r3; r4; r5; w_sub spw (new_init 2); r7] in
+  0 <= pc < IO_START -> may_access K psr pc = true -> mget m pc = new_init w -> decode w = DOk (STRAP v) ->
+  (if k_real K then None else real_int_vect v) = None ->
+  wrap16 (sp - 1) < IO_START -> wrap16 (sp - 2) < IO_START -> v < IO_START ->
+  step_in e (mk K m [r0; r1; r2; r3; r4; r5; r6; r7] pc psr ssp fno frs ins pf obs mcr q buf) =
+  (mk K m' rs' (w_data (mget m' v)) (psr_set_cc (psr_set_privileged psr true) 2)
+      (if psr_privileged psr then ssp else r6)
+      (fno + 1) (push_frs FTrap (k_srd K) rs' m' (wrap16 (npc - 1)) v frs)
+      (next_ins ins) false (obs_trap [(pc, OBS_READ)] m sp psr npc v) mcr q buf, OOk).
+Proof. step_by exec_TRAP. Qed.
+
+Lemma step_TRAP_halt_virtual K e m rs pc psr ssp fno frs ins pf obs mcr q buf w :
+  0 <= pc < IO_START -> may_access K psr pc = true -> mget m pc = new_init w -> decode w = DOk (STRAP 37) ->
+  k_real K = false ->
+  step_in e (mk K m rs pc psr ssp fno frs ins pf obs mcr q buf) =
+  (mk K m rs (wrap16 (wrap16 (pc + 1) + -1)) psr ssp fno frs ins true [(pc, OBS_READ)] mcr q buf, OHalt).
+Proof.
+  intros. erewrite step_in_fetch by eassumption. rewrite exec_TRAP_halt_virtual by assumption.
+  unfold after_exec, mk. cbn [s_flags kflags fl_real]. rewrite H3. reflexivity.
+Qed.
+
+Lemma step_RTI K e m r0 r1 r2 r3 r4 r5 r6 r7 pc psr ssp fno frs ins pf obs mcr q buf w :
+  let sp := w_data r6 in
+  let npc := w_data (mget m sp) in
+  let npsr := w_data (mget m (wrap16 (sp + 1))) in
+  let r6' := w_add r6 (new_init 2) in
+  0 <= pc < IO_START -> may_access K psr pc = true -> mget m pc = new_init w -> decode w = DOk SRTI ->
+  psr_privileged psr = true -> sp < IO_START -> wrap16 (sp + 1) < IO_START ->
+  step_in e (mk K m [r0; r1; r2; r3; r4; r5; r6; r7] pc psr ssp fno frs ins pf obs mcr q buf) =
+  (mk K m [r0; r1; r2; r3; r4; r5; if psr_privileged npsr then r6' else ssp; r7] npc npsr
+      (if psr_privileged npsr then ssp else r6')
+      (Z.max 0 (fno - 1)) (pop_frs frs) (next_ins ins) false
+      (obs_update (obs_update [(pc, OBS_READ)] sp OBS_READ) (wrap16 (sp + 1)) OBS_READ) mcr q buf, OOk).
+Proof. step_by exec_RTI. Qed.
+
+(* ------------------------------------------------------------------ word / PSR arithmetic *)
+Lemma wrap16_small x : 0 <= x < 65536 -> wrap16 x = x.
+Proof. intros H. unfold wrap16. apply Z.mod_small. exact H. Qed.
+Lemma w_sub_init a b : b <> 0 -> w_sub (new_init a) (new_init b) = new_init (wrap16 (a - b)).
+Proof. intros Hb. unfold w_sub, new_init. cbn [w_data w_init]. apply Z.eqb_neq in Hb. rewrite Hb. reflexivity. Qed.
+Lemma w_add_init a b : a <> 0 -> b <> 0 -> w_add (new_init a) (new_init b) = new_init (wrap16 (a + b)).
+Proof.
+  intros Ha Hb. unfold w_add, new_init. cbn [w_data w_init]. apply Z.eqb_neq in Ha, Hb. rewrite Ha, Hb. reflexivity.
+Qed.
+Lemma w_add_zero l : w_add l (new_init 0) = l.
+Proof. reflexivity. Qed.
+Lemma w_add_data l b : 0 <= w_data l < 65536 -> 0 < b < 65536 ->
+  w_data (w_add l (new_init b)) = wrap16 (w_data l + b).
+Proof.
+  intros Hl Hb. unfold w_add, new_init. cbn [w_data w_init].
+  replace (b =? 0) with false by (symmetry; apply Z.eqb_neq; lia). cbn [andb].
+  destruct ((w_data l =? 0) && (w_init l =? ALL_BITS)) eqn:E.
+  - apply andb_prop in E. destruct E as [E _]. apply Z.eqb_eq in E. rewrite E. cbn [w_data].
+    symmetry. apply wrap16_small. lia.
+  - reflexivity.
+Qed.
+
+Lemma one_hot3_cases x : one_hot3 x = true -> x = 1 \/ x = 2 \/ x = 4.
+Proof.
+  unfold one_hot3. intros H. apply orb_prop in H. destruct H as [H|H]; [apply orb_prop in H; destruct H as [H|H]|];
+  apply Z.eqb_eq in H; auto.
+Qed.
+Definition cc_norm (c : Z) : Z := if one_hot3 (Z.land c 7) then Z.land c 7 else 2.
+Lemma cc_norm_cases c : cc_norm c = 1 \/ cc_norm c = 2 \/ cc_norm c = 4.
+Proof. unfold cc_norm. destruct (one_hot3 (Z.land c 7)) eqn:E; [apply one_hot3_cases; exact E|auto]. Qed.
+Lemma psr_set_cc_idem p a b : psr_set_cc (psr_set_cc p a) b = psr_set_cc p b.
+Proof.
+  unfold psr_set_cc. fold (cc_norm a) (cc_norm b). f_equal.
+  rewrite Z.land_lor_distr_l. rewrite <- Z.land_assoc. change (Z.land 65528 65528) with 65528.
+  destruct (cc_norm_cases a) as [-> | [-> | ->]]; cbn; apply Z.lor_0_r.
+Qed.
+Lemma psr_cc_set_cc p c : psr_cc (psr_set_cc p c) = cc_norm c.
+Proof.
+  unfold psr_cc, psr_set_cc. fold (cc_norm c). rewrite Z.land_lor_distr_l. rewrite <- Z.land_assoc.
+  change (Z.land 65528 7) with 0. rewrite Z.land_0_r, Z.lor_0_l.
+  destruct (cc_norm_cases c) as [-> | [-> | ->]]; reflexivity.
+Qed.
+Lemma cc_of_cases x : cc_of x = 4 \/ cc_of x = 2 \/ cc_of x = 1.
+Proof. unfold cc_of. destruct (to_i16 x <? 0); auto. destruct (to_i16 x =? 0); auto. Qed.
+Lemma cc_norm_cc_of x : cc_norm (cc_of x) = cc_of x.
+Proof. destruct (cc_of_cases x) as [-> | [-> | ->]]; reflexivity. Qed.
+Lemma psr_cc_set_cc_of p x : psr_cc (psr_set_cc p (cc_of x)) = cc_of x.
+Proof. rewrite psr_cc_set_cc. apply cc_norm_cc_of. Qed.
